@@ -30,7 +30,12 @@ func vfDirected() map[string][][]byte {
 	dbf := vfAt(vfAt(vfPad([]byte{0x03, 0x7B}, 68), 2, 7, 21), 32, 'N', 'A', 'M', 'E')
 	shp := vfAt(vfAt(vfPad(nil, 112), 0, 0, 0, 0x27, 0x0A), 28, 0xE8, 0x03, 0, 0)
 	srt := func(l2 string) []byte { return []byte("1\n" + l2 + "\nHello\n\n2\n") }
+	marc := vfAt(vfAt(vfPad([]byte("00714cam a2200205 a "), 64), 20, '4', '5', '0', '0'), 40, 0x1E)
 	m := map[string][][]byte{
+		"Marc": {
+			marc, vfAt(marc, 40, 0x1F), vfAt(marc, 0, '0', '0', '0', '2', '6'), vfAt(marc, 0, '9', '9', '9', '9', '9'), vfAt(marc, 4, 'x'), vfAt(marc, 23, '1'),
+			marc[:24], marc[:41], append(vfPad(marc[:24], 2047), 0x1E), append(vfPad(marc[:24], 2048), 0x1E),
+		},
 		"MachO": {
 			{0xCA, 0xFE, 0xBA, 0xBE, 0, 0, 0, 2, 0, 0, 0, 7}, {0xCA, 0xFE, 0xBA, 0xBE, 0, 0, 0, 0x13}, {0xCA, 0xFE, 0xBA, 0xBE, 0, 0, 0, 0x14},
 			{0xCA, 0xFE, 0xBA, 0xBE, 0, 0, 0, 30}, {0xCA, 0xFE, 0xBA, 0xBE, 0, 0, 0, 31}, {0xCA, 0xFE, 0xBA, 0xBE, 0, 0, 0},
